@@ -562,6 +562,39 @@ func main() {
 		done()
 	}
 
+	// ---- message size limit ----
+	if r.Want("message-size-limit") {
+		var specs []ARSpec
+		for _, dc := range dirCombos(allShapes()) {
+			if len(dc) == 1 {
+				specs = append(specs, ARSpec{Files: 0, Dirs: dc})
+			}
+		}
+		sub := r.NewSub("message-size-limit", "venum", fmt.Sprintf("%d ActionResults (no files, one output directory: each of the 21 Tree shapes x root digest y/n) x maximumMessageSizeBytes = EVERY value from the size of the ActionResult to the size of the Tree + 2 (every position at which a too large Directory message can be cut) x {nothing, each single referenced object} missing; only returned results are judged (a refusal for size is legitimate)", len(specs)))
+		done := sub.Timer()
+		d := &driver{r: r, sub: sub, name: "message-size-limit"}
+		d.drive(specs, func(fx *fixture, emit func(Case)) {
+			hi := 0
+			for _, k := range fx.treeKeyOfDir {
+				if n := len(fx.trees[k]); n > hi {
+					hi = n
+				}
+			}
+			for v := len(fx.arBytes); v <= hi+2; v++ {
+				for m := -1; m < len(fx.r0); m++ {
+					c := baseCase(fx.spec)
+					c.MaxMsg = v
+					if m >= 0 {
+						c.Missing = []int{m}
+					}
+					emit(c)
+				}
+			}
+		})
+		sub.Exhaustive = true
+		done()
+	}
+
 	// ---- buffer kinds x missing ----
 	if r.Want("buffer-kinds") {
 		combos := dirCombos(pairShapesMain)
